@@ -366,6 +366,36 @@ func checkC18(c *Ctx) Meta {
 				ok = true
 			}
 		})
+		// the pad loop accumulates: what is appended to inside the loop is the running slice itself
+		accum := true
+		allInstrs(f, func(in ssa.Instruction) {
+			cl, isC := in.(*ssa.Call)
+			if !isC || !blockReentered(f, cl) {
+				return
+			}
+			if b, isB := cl.Call.Value.(*ssa.Builtin); !isB || b.Name() != "append" {
+				return
+			}
+			ph, isP := cl.Call.Args[0].(*ssa.Phi)
+			if !isP {
+				accum = false
+				return
+			}
+			carried := false
+			for _, e := range ph.Edges {
+				if e == ssa.Value(cl) {
+					carried = true
+				}
+			}
+			if !carried {
+				accum = false
+			}
+		})
+		if !accum {
+			c.Bad("C18-PAD", spec.name+":pad-loop-accumulates", c.Pos(f.Pos()), "inside the pad loop the zero byte is appended to a slice that is not the running result: at most one pad byte survives, so a value two or more bytes short stays short")
+		} else {
+			c.OK("C18-PAD", spec.name+":pad-loop-accumulates", c.Pos(f.Pos()), "every append in the pad loop extends the running slice")
+		}
 		if ok && w.padders[f] {
 			c.OK("C18-PAD", key, c.Pos(f.Pos()), "pad count / offset = size - len(src)")
 		} else {
